@@ -169,13 +169,16 @@ QAdd(a, b) == LET k == MaxI(a[2], b[2])
               IN RoundSig(<<a[1] * Pow2(k - a[2]) + b[1] * Pow2(k - b[2]), k>>)
 QHalf(a) == RoundSig(<<a[1], a[2] + 1>>)
 ToWork(n) == RoundSig(<<n, 0>>)
+\* data and outside value of a case travel in units of 2^-u (UBits; 0 unless the
+\* outside value of integer data is not an integer)
+ToWorkU(c, n) == RoundSig(<<n, UBits(c)>>)
 
 \* one axis (2 = z, 3 = y, 4 = x) of a 3-D work array W : positions -> <<n, k>>
 HalveAxis(W, shape, axis, c) ==
   LET n == shape[axis]
       nshape == [shape EXCEPT ![axis] = CeilDiv(n, 2)]
       get(p, i) == IF i < n THEN W[[p EXCEPT ![axis] = i]]
-                   ELSE IF c.pad = "const" THEN ToWork(c.ov)
+                   ELSE IF c.pad = "const" THEN ToWorkU(c, c.ov)
                    ELSE W[[p EXCEPT ![axis] = n - 1]]
       pos == {<<0, z, y, x>> : z \in 0..(nshape[2] - 1), y \in 0..(nshape[3] - 1), x \in 0..(nshape[4] - 1)}
   IN <<[p \in pos |-> QHalf(QAdd(get(p, 2 * p[axis]), get(p, 2 * p[axis] + 1))) ], nshape>>
@@ -184,7 +187,7 @@ HalveAxis(W, shape, axis, c) ==
 PairwiseHalfSum(c) ==
   LET sh0 == <<1, c.shape[2], c.shape[3], c.shape[4]>>
       W0 == [p \in {<<0, z, y, x>> : z \in 0..(sh0[2] - 1), y \in 0..(sh0[3] - 1), x \in 0..(sh0[4] - 1)}
-               |-> ToWork(c.data[Flat(c.shape, 0, p[2], p[3], p[4])])]
+               |-> ToWorkU(c, c.data[Flat(c.shape, 0, p[2], p[3], p[4])])]
       s1 == IF c.f[3] = 2 THEN HalveAxis(W0, sh0, 2, c) ELSE <<W0, sh0>>
       s2 == IF c.f[2] = 2 THEN HalveAxis(s1[1], s1[2], 3, c) ELSE s1
       s3 == IF c.f[1] = 2 THEN HalveAxis(s2[1], s2[2], 4, c) ELSE s2
